@@ -82,7 +82,7 @@ theorem At.union_kids {path ufs mode n md p fs types offs cur}
   exact newUnionFields_at path ufs 0 bl0 fs hbl0 ht.2.1 cur hw.2.2.1 hs hsu htot.2
 
 /-- one row of a union builder: the union fails itself only for an undeclared variant (the row counter has head room:
-`hcap`, repo fix fe68100); everything else is the variant's child -/
+`hcap`, repo fix 217d612); everything else is the variant's child -/
 theorem union_row_bl {pc : B → R B} {p fs types offs cur} {i : Nat} {S : List String} {path : String} {ufs : UFields}
     {mode : UnionMode} {n : Bool} {md : Metadata}
     (hg : GoodH (.union p fs types offs cur) (.union ufs mode) n md)
